@@ -112,6 +112,23 @@ Proof.
   inversion H; subst. constructor; auto.
 Qed.
 
+Lemma dedup_incl seen l x : In x (dedup seen l) -> In x l.
+Proof.
+  revert seen; induction l as [|y r IH]; intros seen H; cbn [dedup] in H; [exact H|].
+  destruct (existsb (st_eqb (fst y)) seen).
+  - right. eapply IH; eauto.
+  - destruct H as [<-|H]; [left; reflexivity|right; eapply IH; eauto].
+Qed.
+
+Lemma dedup_length seen l : length (dedup seen l) <= length l.
+Proof.
+  revert seen; induction l as [|y r IH]; intros seen; cbn [dedup length]; [lia|].
+  destruct (existsb (st_eqb (fst y)) seen); [specialize (IH seen)|specialize (IH (fst y :: seen))]; cbn [length]; lia.
+Qed.
+
+Lemma dedup_nil_head l : l <> [] -> dedup [] l <> [].
+Proof. destruct l as [|y r]; [congruence|]. intros _. cbn. discriminate. Qed.
+
 Section WithSorter.
   Variable sorter : list pst -> list pst.
   Hypothesis sorter_perm : forall l, Permutation (sorter l) l.
@@ -122,12 +139,16 @@ Section WithSorter.
     intros Hl HF.
     assert (Hlen : length (sorter new) = length new) by (apply Permutation_length, sorter_perm).
     assert (HF' : Forall (hist_len n) (sorter new)) by (eapply Forall_perm; [apply sorter_perm|exact HF]).
-    unfold prune. destruct (sorter new) as [|best rest] eqn:E; [cbn in Hlen; lia|].
+    assert (HFd : Forall (hist_len n) (dedup [] (sorter new))).
+    { apply Forall_forall. intros x Hx. apply dedup_incl in Hx. eapply Forall_forall in HF'; eauto. }
+    assert (Hne : dedup [] (sorter new) <> []).
+    { apply dedup_nil_head. intros E. rewrite E in Hlen. cbn in Hlen. lia. }
+    unfold prune. destruct (dedup [] (sorter new)) as [|best rest] eqn:E; [congruence|].
     destruct (is_zero (fst best)).
-    - eexists. split; [reflexivity|]. split; [cbn; lia|]. inversion HF'; subst. constructor; auto.
+    - eexists. split; [reflexivity|]. split; [cbn; lia|]. inversion HFd; subst. constructor; auto.
     - eexists. split; [reflexivity|]. split.
       + rewrite firstn_length. cbn [length]. lia.
-      + apply Forall_firstn. exact HF'.
+      + apply Forall_firstn. exact HFd.
   Qed.
 
   Lemma steps_ok counts : Forall (fun c => 2 <= c) counts ->
